@@ -342,3 +342,101 @@ Proof.
     destruct (fold_left (pc_step (cm_seq c) (cm_inst c)) r (exec1 m x, c1)) as [m' c'].
     destruct IH as (A & B & C & D). split; [exact A|]. split; [exact B|]. split; assumption.
 Qed.
+
+(* ---------------------------------------------------------------- C01: mirror step for context transactions *)
+From SDC Require Import Mdib.Proofs_Ctx.
+
+Lemma put_cc_cstates c h s h' : cm_cstates (put_cc c h s) h' = if Z.eqb h h' then s else cm_cstates c h'.
+Proof. reflexivity. Qed.
+
+Lemma upd_cstates_frame items : forall c,
+  let c' := fst (upd_cstates c items) in
+  cm_descrs c' = cm_descrs c /\ cm_states c' = cm_states c /\ cm_ver c' = cm_ver c /\
+  cm_seq c' = cm_seq c /\ cm_inst c' = cm_inst c /\ cm_mode c' = cm_mode c.
+Proof.
+  induction items as [|[h s] r IH]; intros c; cbn [upd_cstates]; [cbn; repeat split|].
+  set (acc := match cm_cstates c h with Some o => c_ver o <? c_ver s | None => true end).
+  destruct (upd_cstates (if acc then put_cc c h (Some s) else c) r) as [c2 ns] eqn:E. cbn [fst].
+  specialize (IH (if acc then put_cc c h (Some s) else c)). rewrite E in IH. cbn [fst] in IH.
+  destruct IH as (A & B & C & D & F & G). destruct acc; cbn in *; repeat split; congruence.
+Qed.
+
+Lemma upd_cstates_fresh items : forall c, NoDup (map fst items) ->
+  (forall h s, In (h, s) items -> match cm_cstates c h with Some o => c_ver o < c_ver s | None => True end) ->
+  (forall h, cm_cstates (fst (upd_cstates c items)) h =
+             match alist_get items h with Some s => Some s | None => cm_cstates c h end) /\
+  snd (upd_cstates c items) = map (fun e => (N_CTX, fst e)) items.
+Proof.
+  induction items as [|[k s0] r IH]; intros c Hnd Ha; cbn [upd_cstates].
+  - split; reflexivity.
+  - inversion Hnd as [|? ? Hk Hr]; subst.
+    assert (Acc : match cm_cstates c k with Some o => c_ver o <? c_ver s0 | None => true end = true).
+    { specialize (Ha k s0 (or_introl eq_refl)). destruct (cm_cstates c k); [lia|reflexivity]. }
+    rewrite Acc.
+    destruct (upd_cstates (put_cc c k (Some s0)) r) as [c2 ns] eqn:E. cbn [fst snd].
+    destruct (IH (put_cc c k (Some s0)) Hr) as [P N].
+    { intros h s Hi. rewrite put_cc_cstates. destruct (Z.eqb_spec k h) as [->|_]; [|apply Ha; now right].
+      exfalso. apply Hk. now apply (in_map fst) in Hi. }
+    rewrite E in P, N. cbn [fst snd] in P, N. split.
+    + intros h. rewrite P. cbn [alist_get]. rewrite put_cc_cstates.
+      destruct (alist_get r h) as [s1|] eqn:G.
+      * destruct (Z.eqb_spec h k) as [->|_]; [|reflexivity].
+        exfalso. apply Hk. apply alist_get_some_in in G. now apply (in_map fst) in G.
+      * destruct (Z.eqb_spec h k) as [->|Hne]; [now rewrite Z.eqb_refl|].
+        destruct (Z.eqb_spec k h); [congruence|reflexivity].
+    + cbn [map fst]. now rewrite N.
+Qed.
+
+(* the items of an EpisodicContextReport: the transaction's context items (none of them a deletion) *)
+Definition ctx_report_items (t : tx) : list (H * cstate) :=
+  flat_map (fun e => match snd e with Some c => [(fst e, c)] | None => [] end) (t_c t).
+Definition no_deletion (t : tx) : Prop := forall h, ~ In (h, None) (t_c t).
+
+Lemma ctx_report_items_get t h : no_deletion t ->
+  alist_get (ctx_report_items t) h = match alist_get (t_c t) h with Some (Some c) => Some c | _ => None end.
+Proof.
+  unfold ctx_report_items, no_deletion. induction (t_c t) as [|[k x] r IH]; intros Hn; cbn [flat_map alist_get]; [reflexivity|].
+  destruct x as [c|]; [|exfalso; apply (Hn k); now left].
+  cbn [snd fst app alist_get]. destruct (Z.eqb h k); [reflexivity|]. apply IH. intros h0 Hi. apply (Hn h0). now right.
+Qed.
+
+Lemma ctx_report_items_keys t : no_deletion t -> map fst (ctx_report_items t) = map fst (t_c t).
+Proof.
+  unfold ctx_report_items, no_deletion. induction (t_c t) as [|[k x] r IH]; intros Hn; [reflexivity|].
+  destruct x as [c|]; [|exfalso; apply (Hn k); now left]. cbn. f_equal. apply IH. intros h0 Hi. apply (Hn h0). now right.
+Qed.
+
+Theorem mirror_step_ctx_tx m t c :
+  ctx_ok m t -> no_deletion t -> t_c t <> [] -> mirrors c m ->
+  let m' := commit_states m t in
+  let r := RCtx (mkVg (ver m') (cm_seq c) (cm_inst c)) (ctx_report_items t) in
+  mirrors (fst (receive c r)) m' /\
+  snd (receive c r) = map (fun e => (N_CTX, fst e)) (ctx_report_items t).
+Proof.
+  intros Hok Hnd Hne (Md & Ms & Mc & Mv & Mm). cbv zeta.
+  destruct (commit_ctx_pointwise m t Hok) as (D & S & P & _).
+  assert (V : ver (commit_states m t) = ver m + 1).
+  { rewrite commit_states_ver. rewrite (cx_s _ _ Hok). destruct (t_c t); [contradiction|reflexivity]. }
+  unfold receive. cbn [report_vg vg_seq vg_inst]. rewrite Mm, !Z.eqb_refl. cbn [andb].
+  unfold process. cbn [report_vg vg_ver cm_ver]. rewrite Mv, V.
+  replace (ver m + 1 <? ver m) with false by lia.
+  set (c1 := set_vg _ _).
+  assert (Hkeys : NoDup (map fst (ctx_report_items t))) by (rewrite ctx_report_items_keys by assumption; apply (cx_nodup _ _ Hok)).
+  destruct (upd_cstates_fresh (ctx_report_items t) c1 Hkeys) as [Pu Nu].
+  { intros h s Hi. subst c1. cbn [set_vg cm_cstates]. rewrite Mc.
+    assert (G : alist_get (ctx_report_items t) h = Some s) by (now apply alist_get_in).
+    rewrite ctx_report_items_get in G by assumption.
+    destruct (alist_get (t_c t) h) as [[c0|]|] eqn:G2; try discriminate. injection G as ->.
+    apply alist_get_some_in in G2. pose proof (cx_items _ _ Hok _ _ G2) as I. unfold item_ok in I.
+    destruct (cstates m h) as [o|]; [destruct I as (E & _); lia|exact Logic.I]. }
+  destruct (upd_cstates_frame (ctx_report_items t) c1) as (Fd & Fs & Fv & _ & _ & Fm). cbv zeta in *.
+  split; [|exact Nu].
+  repeat split.
+  - intros h. rewrite Fd. subst c1. cbn. now rewrite Md, D.
+  - intros h. rewrite Fs. subst c1. cbn. now rewrite Ms, S.
+  - intros h. rewrite Pu, P, ctx_report_items_get by assumption. subst c1. cbn [set_vg cm_cstates]. rewrite Mc.
+    destruct (alist_get (t_c t) h) as [[c0|]|] eqn:G; try reflexivity.
+    exfalso. apply (Hnd h). now apply alist_get_some_in.
+  - rewrite Fv. subst c1. cbn. lia.
+  - rewrite Fm. subst c1. reflexivity.
+Qed.
